@@ -50,11 +50,11 @@ type vfC33Cfg struct {
 }
 
 type vfC33Track struct {
-	SSRC      uint32   `json:"ssrc"`
-	Serial    *uint32  `json:"serial,omitempty"`
-	Cfg       vfC33Cfg `json:"cfg"`
-	SingleCh  int      `json:"single_ch"` // single-track modes: channel count argument (1|2)
-	SingleSR  uint32   `json:"single_sr"` // single-track modes: sample rate argument
+	SSRC     uint32   `json:"ssrc"`
+	Serial   *uint32  `json:"serial,omitempty"`
+	Cfg      vfC33Cfg `json:"cfg"`
+	SingleCh int      `json:"single_ch"` // single-track modes: channel count argument (1|2)
+	SingleSR uint32   `json:"single_sr"` // single-track modes: sample rate argument
 }
 
 type vfC33Pkt struct {
